@@ -161,7 +161,7 @@ func isParamOf(info *types.Info, fi *FuncInfo, e ast.Expr) bool {
 }
 
 func isFieldNamed(v *types.Var, name string) bool {
-	return v != nil && v.IsField() && v.Name() == name
+	return v != nil && v.IsField() && canonName(v) == name
 }
 
 // tupleDef: the local variable is defined exactly once, as the idx-th result of a call (`a, b := f(x)`).
